@@ -1773,6 +1773,9 @@ def generate_and_run(seed: int, cfg: dict, log_keep=False) -> dict:
     if src is None:
         return {"violation": None, "digest": "rejected", "n_events": 0, "probes": {"program_rejected": 8}, "faults": {}, "ops": {}, "n_compared": 0, "data": None}
     S.log.log("prog", h=stable_hash(src))
+    from exo.core.prelude import Sym as _Sym
+
+    _sym0 = _Sym._unq_count
     n_ops = r_ops.randint(cfg.get("min_ops", 4), cfg.get("max_ops", 12))
     fault_rate = cfg.get("fault_rate", 0.0)
     fault_kinds = cfg.get("fault_kinds", ["F3c", "F3i", "F1", "F2"])
@@ -1909,6 +1912,7 @@ def generate_and_run(seed: int, cfg: dict, log_keep=False) -> dict:
         S.check_pure("at end of", "session", with_str=True)
     S.crash.uninstall()
     res = S.result()
+    data["n_syms"] = _Sym._unq_count - _sym0  # symbols created by the op list (C18 places id boundaries inside it)
     res["data"] = data
     res["motifs"] = picked
     return res
